@@ -69,7 +69,14 @@ fn main() {
       body.push_str(*rng.pick(&words[..]));
       body.push(' ');
     }
-    let d = serde_json::json!({"_id": format!("d{i}"), "body": body, "tag": *rng.pick(&["x", "y", "z"][..]), "n": rng.below(10)});
+    // ids and tags with multi-byte characters: they appear in every response (hit ids, terms
+    // buckets), so truncating capacities fall inside characters, not only between them
+    let id = match i % 3 {
+      0 => format!("d{i}"),
+      1 => format!("dé{i}ü"),
+      _ => format!("日本{i}😀"),
+    };
+    let d = serde_json::json!({"_id": id, "body": body, "tag": *rng.pick(&["x", "ÿ", "日本"][..]), "n": rng.below(10)});
     let c = CString::new(d.to_string()).unwrap();
     let r = unsafe { searchlite_add_json(h, c.as_ptr(), c.as_bytes().len()) };
     assert!(r >= 0, "add_json {r}");
@@ -133,6 +140,15 @@ fn main() {
       let mut v: Vec<usize> = vec![0, 1, 2, 3, json.len().saturating_sub(1), json.len(), json.len() + 1, json.len() + 2, maxcap];
       for _ in 0..24 {
         v.push(rng.below(maxcap as u64 + 1) as usize);
+      }
+      // every capacity whose last byte falls inside a multi-byte character of the response
+      if let Ok(text) = std::str::from_utf8(&json) {
+        for i in 0..json.len() {
+          if !text.is_char_boundary(i) {
+            v.push(i + 1);
+            v.push(i);
+          }
+        }
       }
       v.sort();
       v.dedup();
